@@ -30,7 +30,13 @@ MANIFEST = {
             "(flush_takes_reference), and ANY reply that matches the outstanding Confirmable — empty ACK, ACK with a request code, "
             "ACK with an invalid code class, Reset — leaves the same state: node, PDU and reference released (any_reply_ends_exchange); "
             "all theorems above (ref = holders, reclaimed after the timeout, ledger empty after teardown) are proved over histories "
-            "that contain these events; a Lean-verified monitor ledgerOk (ledgerOk_iff) judges the REAL allocation trace recorded through wrapped "
+            "that contain these events.  M also covers CALL HOME: coap_session_set_type_client on a server datagram session takes exactly "
+            "one reference for the application and leaves the session in its endpoint's table (call_home_takes_one_reference), idle "
+            "accounting and timeout reclamation pass it by (client_session_survives_pass), coap_session_release frees nothing on a server "
+            "session or while a reference is left (release_frees_only_unreferenced_client_sessions), and the release of the last reference "
+            "of the client session frees it once, unlinks it from the table it lives in and raises no session-deleted event, so the peer's "
+            "next datagram gets a fresh session (end_call_home_frees_and_unlinks, client_free_releases_and_unlinks; "
+            "one_new_one_del_per_session: deleted + handed = new); a Lean-verified monitor ledgerOk (ledgerOk_iff) judges the REAL allocation trace recorded through wrapped "
             "coap_malloc_type/free_type.  M is tied to the compiled code by exact trace equality (session->ref, last_rx_tx and the "
             "notifications each peer received, partial_read / partial_pdu / state NONE of stream sessions, after EVERY event) on generated "
             "histories from 1..50 datagram peers and 0..4 stream peers (TCP endpoint; connect, whole requests, requests cut anywhere in "
@@ -56,7 +62,9 @@ REQUIRED_THEOREMS = ["peer_session_functional_injective", "one_new_one_del_per_s
                      "teardown_ledger_empty", "ledger_never_bad", "ledgerOk_iff", "same_peer_same_session",
                      "referenced_session_survives_pass", "open_session_reclaimed_only_after_timeout",
                      "partial_pdu_hangs_off_live_session", "reclaim_releases_partial_pdu", "teardown_state_empty",
-                     "any_reply_ends_exchange", "delayed_send_takes_no_reference", "flush_takes_reference"]
+                     "any_reply_ends_exchange", "delayed_send_takes_no_reference", "flush_takes_reference",
+                     "call_home_takes_one_reference", "end_call_home_frees_and_unlinks", "client_free_releases_and_unlinks",
+                     "release_frees_only_unreferenced_client_sessions", "client_session_survives_pass"]
 RULE = ("one line = one whole history on a fresh real server context with two UDP endpoints and one TCP endpoint: requests from 1..50 peers "
         "(peers P and P+25 share the remote address/port and differ in the local port only; groups share the remote IP or the "
         "remote port) and, in about a third of the histories, 1..4 stream peers (connect + CSM, whole requests / observe / async / "
@@ -75,7 +83,9 @@ RULE = ("one line = one whole history on a fresh real server context with two UD
         "in session->delayqueue — while the application / an observation / an async entry refers to the session too, the peer ending "
         "each exchange with an empty ACK, an ACK with a request code, an ACK with an invalid code class, a Reset, or never "
         "(retransmissions to give-up), disconnect / teardown with Confirmables still delayed, then releases and time jumps across the session timeout, application "
-        "reference/release, session disconnect, resource deletion (also while dirty), max_idle_sessions / session_timeout settings, virtual-time jumps on both sides of every timeout "
+        "reference/release, call home (coap_session_set_type_client on a peer's session after a request / observation / async entry, then more "
+        "requests, notifications, references, time beyond the session timeout, idle-limit pressure, disconnect, the other holders letting go, "
+        "coap_session_release of the call-home reference, the peer talking again, teardown with the call-home session alive), session disconnect, resource deletion (also while dirty), max_idle_sessions / session_timeout settings, virtual-time jumps on both sides of every timeout "
         "(retransmission deadlines, session_timeout-1/0/+1), I/O steps, context teardown at any point (always at the end); "
         "non-trivial = distinct history that created at least one session and has at least 4 events")
 TRUSTED_BASE = ["Lean 4.33 kernel; axioms allowed: propext, Classical.choice, Quot.sound (audited per theorem each run)",
@@ -93,10 +103,13 @@ ASSUMPTIONS = ["partial: 'nothing used after release' in the compiled C is ASan'
                "SPEC DECISION D15: 'the oldest idle one when the idle-session limit is reached' is coap_endpoint_get_session's rule "
                "(datagram endpoints); accepting a stream connection (coap_new_server_session) does no idle accounting and evicts nothing",
                "the application releases only references it holds (D14) and does not use session pointers after coap_free_context (D13)",
+               "SPEC DECISION D16: call home on datagram sessions; the application releases the reference coap_session_set_type_client gave it "
+               "when it is the last one (libcoap frees a client session inside whichever release comes last)",
                "compiled Lean definitions agree with the kernel's reading of them"]
 SPEC_DECISIONS = ["D9 peer_session_functional_injective: UDP, and DTLS without connection-id re-keying",
                   "D13 'valid while the application refers to it' is scoped to the life of the context; everything-released has priority at teardown",
                   "D14 the application releases only references it holds",
+                  "D16 call home: datagram sessions; the application's call-home reference is released last",
                   "D15 the idle-session limit is enforced where sessions are created from datagrams (coap_endpoint_get_session); "
                   "accepting a stream connection neither counts nor evicts"]
 RUN_KW = {"timeout": 900, "env": {"ASAN_OPTIONS": "detect_leaks=1:abort_on_error=0:exitcode=86:allocator_may_return_null=1"}}
@@ -252,7 +265,36 @@ def gen_history(rng, big=False):
                 toks += ["T%d" % rng.choice([t, t + 1, max(1, t - 1), 2 * t, 62000, 300000]), "i"]
                 if rng.random() < 0.4: toks.append(rng.choice(["r%d" % p, "o%d.0" % p, "c0", "i", "+%d" % p, "u%d" % p]))
             continue
-        if c0 < 0.12:
+        if c0 < 0.155:
+            # call home: the application takes the peer's server session over as a client session
+            # (coap_session_set_type_client: one reference for the application, the session stays in its endpoint's table),
+            # things go on on it — requests, observations, async entries, application references, notifications, time far
+            # beyond the session timeout, idle-limit pressure from other peers, a disconnect —, the other holders let go,
+            # and the application ends it (coap_session_release: reference count 0 on a CLIENT session frees it at once);
+            # then the peer talks again (a FRESH session), passes run, the context is freed
+            t = timeout * 1000
+            toks.append(rng.choice(["r%d", "r%d", "o%d.0", "a%d", "o%d.1.1"]) % p)
+            if rng.random() < 0.3: toks.append(rng.choice(["+%d", "o%d.1", "a%d", "q%d", "b%d.40.1"]) % p)
+            toks.append("h%d" % p)
+            for _ in range(rng.choice([0, 0, 1, 1, 2, 3, 4])):
+                r = rng.random()
+                if r < 0.30: toks.append(rng.choice(["r%d", "r%d", "o%d.0", "d%d.0", "a%d", "f%d", "+%d", "-%d", "h%d", "q%d", "u%d", "x%d", "j%d", "b%d.1.1"]) % p)
+                elif r < 0.45: toks += ["T%d" % rng.choice([1, 2000, t - 1 if t > 1 else 1, t, t + 1, 2 * t]), rng.choice(["i", "i", "I1", "r%d" % rng.choice(dpool)])]
+                elif r < 0.60: toks += ["c%d" % rng.randrange(2), "i"]
+                elif r < 0.80: toks.append("r%d" % rng.choice(dpool))
+                elif r < 0.90: toks.append(rng.choice(["m1", "m2", "i", "I5"]))
+                else: toks.append("%s%d.0" % (rng.choice("ty"), p))
+            if rng.random() < 0.85:
+                toks += [x % p for x in rng.sample(["-%d", "-%d", "f%d", "d%d.0", "d%d.1", "d%d.1.1", "x%d", "k%d"], rng.randrange(0, 5))]
+                if rng.random() < 0.3: toks += ["T%d" % rng.choice([1, 40, t, 62000]), "i"]
+                toks.append("j%d" % p)
+                for _ in range(rng.choice([0, 1, 1, 2, 3])):
+                    toks.append(rng.choice(["r%d" % p, "r%d" % p, "o%d.0" % p, "i", "T%d" % t, "i", "j%d" % p, "h%d" % p, "+%d" % p,
+                                            "r%d" % rng.choice(dpool), "c0", "F"]))
+                    if toks[-1] == "F": break
+                if toks[-1] == "F": break
+            continue
+        if c0 < 0.175:
             # an I/O pass whose `now` the application read a little earlier (before the last datagrams were handled)
             x = rng.choice([1, 2, 5, 100, 1000, 2000, timeout * 1000, timeout * 1000 + 1])
             if rng.random() < 0.7:
@@ -282,7 +324,8 @@ def gen_history(rng, big=False):
         elif c < 0.57: toks.append("g%d.%d" % (p, rng.randrange(3)))
         elif c < 0.63: toks.append("+%d" % p)
         elif c < 0.685: toks.append("-%d" % p)
-        elif c < 0.715: toks.append("x%d" % p)
+        elif c < 0.705: toks.append("x%d" % p)
+        elif c < 0.715: toks.append(rng.choice(["h%d", "j%d"]) % p)
         elif c < 0.725: toks.append("D%d" % rng.randrange(2))
         elif c < 0.86:
             t = timeout * 1000
@@ -325,6 +368,7 @@ def split_line(s):
         evs = [] if E == "E-" else E[1:].split(",")
         refs = None
         dq = {}          # idx -> length of the session's delay queue (Confirmables waiting for their NSTART slot)
+        cl = set()       # sessions whose type is CLIENT (taken over with coap_session_set_type_client)
         if R != "R-":
             refs = {}
             for r in R[1:].split(","):
@@ -333,11 +377,12 @@ def split_line(s):
                 refs[i] = (int(a), int(b.partition("#")[0]))
                 m = re.search(r"\^(\d+)", b)
                 if m: dq[i] = int(m.group(1))
+                if b.endswith("c"): cl.add(i)
         idle = tuple(int(x) for x in I[1:].split("/"))
         if len(idle) != 3:
             raise ValueError("bad idle counts %r" % I)
         segs.append((tok, outcome, evs, refs if refs is not None else {}, idle, tuple(int(x) for x in L[1:].split("/")),
-                     int(Ck[1:]), dq))
+                     int(Ck[1:]), dq, cl))
     return segs, fields
 
 
@@ -369,7 +414,9 @@ def oracle(inp, impl):
                          # known from the INPUT and the session-new events alone
     nxt = 0
     prev_dq = {}
-    for k, (tok, outcome, evs, refs, idle, lv, clock, dq) in enumerate(segs):
+    homed = set()        # sessions the application has taken over with coap_session_set_type_client (`h` not skipped) and not ended
+    seen_handed = set()  # sessions that were freed as CLIENT sessions: no session-deleted event is due
+    for k, (tok, outcome, evs, refs, idle, lv, clock, dq, cl) in enumerate(segs):
         c = tok[0]
         final = c == "F"
         if c == "T": now += int(tok[1:])
@@ -379,6 +426,16 @@ def oracle(inp, impl):
         # before the pass of a datagram event starts); `I<d>` hands the pass an older one.  Inside the pass the clock may move on
         # (the handler of a delayed response takes time): the harness prints the clock after every event
         pass_now = max(0, now - int(tok[1:])) if c == "I" else now
+        # nothing used after release: a table that still links a freed session object (seen through the wrapped allocator —
+        # the harness has not read the freed object) will be used by the next lookup / walk / teardown of that endpoint
+        for i in refs:
+            if i.startswith("!dangling"):
+                return ("the session table of endpoint %s still links a session object that has been freed (event %d, %s): "
+                        "the next datagram lookup, I/O pass or coap_free_context on that endpoint uses / frees it again" % (
+                            i[len("!dangling"):], k, tok))
+        hp = peer_of(tok) if c in "hj" else None
+        h_idx = owner.get(hp) if hp is not None else None       # the peer's session when the event starts
+        j_want = h_idx is not None and h_idx in homed and prev_refs.get(h_idx, (None, 0))[0] == 1
         runs_pass = c in "irodaktgybInpez" and not outcome.startswith("skip")
         creator = peer_of(tok) if c in "rodaktgybnpez" else None
         stream = creator is not None and creator >= 50
@@ -412,10 +469,24 @@ def oracle(inp, impl):
                         creator, owner[creator], idx, k, tok)
                 owner[creator] = idx; live[idx] = creator
                 if owner_then is None: owner_then = dict(owner)
+            elif kind == "X":
+                # the session object was freed without a session-deleted event: only the release of the LAST reference of
+                # a session the application had turned into a client session does that (coap_session_release, `j`)
+                if idx not in live or idx in seen_del or idx in seen_handed:
+                    return "session object %s freed (event %d, %s) although it is not a live session" % (idx, k, tok)
+                if c != "j" or outcome != "ok" or idx != h_idx or idx not in homed:
+                    return ("session %s freed without a session-deleted event by an event that is not the application's release "
+                            "of the call-home session it holds (event %d, %s)" % (idx, k, tok))
+                if prev_refs.get(idx, (None, 0))[0] != 1:
+                    return "client session %s freed by coap_session_release while its reference count was %s (event %d, %s)" % (
+                        idx, prev_refs.get(idx, (None, 0))[0], k, tok)
+                seen_handed.add(idx); homed.discard(idx)
+                pp = live.pop(idx)
+                if owner.get(pp) == idx: del owner[pp]
             elif kind == "D":
-                if idx == "?" or idx not in seen_new or idx in seen_del:
+                if idx == "?" or idx not in seen_new or idx in seen_del or idx in seen_handed:
                     return "session-deleted event for %s without exactly one earlier session-new (event %d, %s)" % (idx, k, tok)
-                seen_del.add(idx); dels_here.append(idx)
+                seen_del.add(idx); dels_here.append(idx); homed.discard(idx)
                 p = live.pop(idx)
                 if owner.get(p) == idx: del owner[p]
         # datagrams: same peer -> same live session, different peers -> different sessions
@@ -430,6 +501,23 @@ def oracle(inp, impl):
         if not final and set(refs) != set(live):
             return "live sessions %s do not match the session-new/deleted events %s (event %d, %s)" % (
                 sorted(refs), sorted(live), k, tok)
+        # call home: coap_session_set_type_client succeeds exactly on a server session (then the session is a CLIENT session from
+        # now on and stays in the table); the release of its last reference frees it and takes it out of the table
+        if c == "h":
+            want = h_idx is not None and h_idx not in homed
+            if (outcome == "ok") != want:
+                return "coap_session_set_type_client on peer %d's session %s: outcome %s (event %d, %s)" % (hp, h_idx, outcome, k, tok)
+            if want: homed.add(h_idx)
+        if c == "j":
+            want = j_want
+            if (outcome == "ok") != want:
+                return "release of the call-home reference on peer %d's session %s: outcome %s (event %d, %s)" % (hp, h_idx, outcome, k, tok)
+            if want and "X" + h_idx not in evs:
+                return ("the application released the last reference of client session %s but the session object was not freed "
+                        "(event %d, %s)" % (h_idx, k, tok))
+        if not final and {i for i in refs if i in cl} != homed:
+            return "sessions of type CLIENT %s, sessions the application has taken over %s (event %d, %s)" % (
+                sorted(cl), sorted(homed), k, tok)
         # references = holders, on the implementation's own numbers: every holder in this alphabet is a subscription, a
         # queued message, an async entry or a reference the application took, and each holds exactly one reference
         # (a coap_queue_t that waits in a session's delay queue is not a queued message yet: it holds no reference)
@@ -490,8 +578,8 @@ def oracle(inp, impl):
             return "virtual clock %d after the event, %d before (event %d, %s)" % (clock, now, k, tok)
         now = clock
         if final:
-            if seen_new != seen_del:
-                return "after coap_free_context sessions %s never got a session-deleted event" % sorted(seen_new - seen_del)
+            if seen_new != seen_del | seen_handed:
+                return "after coap_free_context sessions %s never got a session-deleted event" % sorted(seen_new - seen_del - seen_handed)
             if lv[:3] != (0, 0, 0):
                 return "after coap_free_context %d sessions / %d subscriptions / %d queue nodes are still allocated" % lv[:3]
         prev_refs = refs
@@ -541,7 +629,7 @@ def ref_vs_holders(iseg, mseg):
         (b,), _ = split_line(mseg)
     except Exception:
         return None
-    if "!holds" in mseg or "!dq" in mseg or a[:3] != b[:3] or set(a[3]) != set(b[3]) or a[7] != b[7]:
+    if "!holds" in mseg or "!dq" in mseg or a[:3] != b[:3] or set(a[3]) != set(b[3]) or a[7] != b[7] or a[8] != b[8]:
         return None
     if any(a[3][i][1] != b[3][i][1] for i in a[3]):
         return None
@@ -559,7 +647,7 @@ def nontrivial(c):
 
 def classify(c):
     n = len(c["input"].split()) - 1
-    peers = {t[1:].split(".")[0] for t in c["input"].split()[1:] if t[0] in "rodafqkug+-xtybnpez"}
+    peers = {t[1:].split(".")[0] for t in c["input"].split()[1:] if t[0] in "rodafqkug+-xtybnpezhj"}
     return "ev<=%d peers<=%d" % (next(b for b in (8, 20, 45, 80, 10 ** 6) if n <= b), next(b for b in (1, 3, 8, 20, 50) if len(peers) <= b))
 
 
